@@ -458,7 +458,7 @@ PROPS["C01"] = {
             "expressions, bits(); non-trivial = at least 2 rows or an error item; distinct = hash of the projected trace (calls, rows, vars, items)",
     "proved": "Stmt.next (the 7-state resumable iterator) driven to the end = the sequential reading StmtSpec.exec, in both directions, for every program, "
               "context, evaluator and row handler (hence every prefix of every run); zero/negative bound skips the loop; scoping via the stack-of-frames "
-              "abstraction of FramedMap; bits() MSB first; THROUGH ERRORS: the iterator after an error item (failing let / row / loop bound consumed, failing while condition evaluated again, blocks stay open) and the refinement, both directions, between the iterator driven by a caller that keeps iterating after error items and StmtSpecE.exec_e, the sequential reading that skips the failing statement",
+              "abstraction of FramedMap; bits() MSB first; THROUGH ERRORS: the iterator after an error item (failing let / row / loop bound consumed, failing while condition evaluated again, blocks stay open) and the refinement, both directions, between the iterator driven by a caller that keeps iterating after error items and StmtSpecE.exec_e, the sequential reading that skips the failing statement; and theorem T through errors (RunSpecE / RunRefineE): the whole iterator driven by a caller that keeps calling next() after error items = the sequential reading in which an IO error costs one call and the rest of the expansion goes on",
     "validated_only": "that src/stmt.rs, src/framed_map.rs, src/eval_context.rs behave as Stmt.v / FramedMap.v / Eval.v (differential runs); repeat(n) = loop(n, ..) in the parser",
     "assumptions": ["Stmt.v / FramedMap.v / Eval.v model src/stmt.rs, src/framed_map.rs, src/eval_context.rs (checked by the correspondence runs of this check)"],
     "trusted_base": [],
